@@ -67,6 +67,55 @@ type taskEnv struct {
 	shared     []*commonmark.RootBlock
 	sharedRefs commonmark.ReferenceMap
 	sharedR    *commonmark.HTMLRenderer
+	// caller-held configuration values that several tasks use at once
+	sharedIP   *commonmark.InlineParser
+	sharedWO   *commonmark.WalkOptions
+	walkStates [simrt.MaxTasks]sharedWalkState
+}
+
+// sharedWalkState is the per-task state behind the callbacks of the one
+// *WalkOptions value that all "walk-shared" tasks pass to Walk.
+type sharedWalkState struct {
+	tape tapeReader
+	root commonmark.Node
+	sb   strings.Builder
+	n    int
+}
+
+// soloTask is the index of the task being run alone (scheduler inactive).
+var soloTask int
+
+func curTask() int {
+	if t := simrt.Current(); t >= 0 {
+		return t
+	}
+	return soloTask
+}
+
+func (env *taskEnv) sharedWalkCallback(post bool) func(c *commonmark.Cursor) bool {
+	site := uint32(sitePre)
+	if post {
+		site = sitePost
+	}
+	return func(c *commonmark.Cursor) bool {
+		st := &env.walkStates[curTask()]
+		simrt.Yield(site)
+		ev := walkEvent{post, c.Node(), c.Parent(), c.ParentBlock(), c.Index()}
+		st.sb.WriteString(describeEvent(ev))
+		if c.Node() == st.root {
+			if c.Parent() != (commonmark.Node{}) || c.Index() >= 0 {
+				st.sb.WriteString("!ROOT-CURSOR")
+			}
+		} else if p := c.Parent(); p == (commonmark.Node{}) || c.Index() < 0 || c.Index() >= p.ChildCount() || p.Child(c.Index()) != c.Node() {
+			st.sb.WriteString("!CURSOR")
+		}
+		st.sb.WriteByte(';')
+		st.n++
+		if st.n > 1<<20 {
+			panic("walk-shared: callback overrun")
+		}
+		return st.tape.next()
+	}
 }
 
 // taskBody returns a function that performs the task and returns its
@@ -91,6 +140,22 @@ func taskBody(env *taskEnv, t *TaskScn) func() string {
 			sw, w := newSimWriter(nil)
 			err := makeRenderer(t.Render, refs).Render(w, blocks)
 			return snapAll(blocks) + fmt.Sprintf("HTML err=%v\n%s", err, sw.Buf)
+		}
+	case "walk-shared":
+		return func() string {
+			me := curTask()
+			st := &env.walkStates[me]
+			*st = sharedWalkState{tape: tapeReader{tape: t.Walk.Tape}}
+			if len(env.shared) > 0 {
+				st.root = env.shared[t.Walk.Block%len(env.shared)].AsNode()
+			}
+			commonmark.Walk(st.root, env.sharedWO)
+			return st.sb.String()
+		}
+	case "stream-shared-ip":
+		return func() string {
+			obs := runStreamWith(doc, t.Reader, env.sharedIP)
+			return snapAll(obs.Blocks) + fmt.Sprintf("ERR %v %v stable=%q", obs.FirstErr, obs.ExtraErrs, obs.Stable)
 		}
 	case "stream":
 		return func() string {
@@ -186,6 +251,8 @@ func buildTaskEnv(s *Scenario) (*taskEnv, bool) {
 		rs = &RenderScn{Filter: "nil"}
 	}
 	env.sharedR = makeRenderer(rs, env.sharedRefs)
+	env.sharedIP = &commonmark.InlineParser{ReferenceMatcher: env.sharedRefs}
+	env.sharedWO = &commonmark.WalkOptions{Pre: env.sharedWalkCallback(false), Post: env.sharedWalkCallback(true)}
 	if s.Arena {
 		// one backing array holding every document back to back; a task's input
 		// is a plain sub-slice, so its spare capacity IS the next document
@@ -209,6 +276,7 @@ func soloRun(env *taskEnv, tasks []TaskScn) ([]string, []uint64) {
 	res := make([]string, len(tasks))
 	steps := make([]uint64, len(tasks))
 	for i := range tasks {
+		soloTask = i
 		body := taskBody(env, &tasks[i])
 		simrt.SetBudget(0)
 		res[i] = protect(body)
